@@ -432,18 +432,20 @@ Lemma batch_step_transparent : forall all st r,
 Proof.
   intros all st r Hc Hin Hk Hinv. unfold batch_step. rewrite Hk.
   destruct (pick_group (b_sg st) (c_groups (m_cfg (r_m r))) (p_time (r_p r))) as [g|] eqn:Ep.
-  - assert (Hsk : (if true && match b_sg st with Some g0 => g_contains g0 (p_time (r_p r)) | None => false end &&
+  - assert (Hsk : (if true && (match b_sg st with Some g0 => g_contains g0 (p_time (r_p r)) | None => false end && b_asis st) &&
                       match b_mst st with Some n => str_eqb n (c_mst (m_cfg (r_m r))) | None => false end
                    then b_sk st else sk_scan (m_vers (r_m r)) (g_id g)) = sk_scan (m_vers (r_m r)) (g_id g)).
     { destruct (b_sg st) as [g0|] eqn:Eg; simpl; auto.
       destruct (g_contains g0 (p_time (r_p r))) eqn:Ec; simpl; auto.
+      destruct (b_asis st); simpl; auto.
       destruct (b_mst st) as [n|] eqn:Em; auto.
       destruct (str_eqb n (c_mst (m_cfg (r_m r)))) eqn:En; auto.
       apply str_eqb_eq in En. unfold pick_group in Ep. rewrite Ec in Ep. inversion Ep; subst g0.
       symmetry. apply (Hinv n g Em Eg r Hin). auto. }
     rewrite Hsk. simpl (false && _ && _). cbv iota. split; [reflexivity|].
     unfold cache_inv.
-    destruct (sk_scan (m_vers (r_m r)) (g_id g)) as [k|] eqn:Es; cbn [fst b_mst b_sg b_sk];
+    destruct (sk_scan (m_vers (r_m r)) (g_id g)) as [k|] eqn:Es;
+      [destruct (wkey (set_sk (m_cfg (r_m r)) k) (r_p r))|]; cbn [fst b_mst b_sg b_sk];
       intros n g' Hn Hg r' Hin' Hname; injection Hn as Hn; injection Hg as Hg; subst n g';
       rewrite (Hc r' r Hin' Hin Hname); auto.
   - split; [reflexivity|]. unfold cache_inv. cbn [fst b_mst b_sg b_sk]. intros n g' _ Hg. discriminate.
@@ -469,6 +471,7 @@ Proof.
   intros st r g s. unfold batch_step. destruct (r_kind r); simpl; [|discriminate|discriminate].
   destruct (pick_group (b_sg st) (c_groups (m_cfg (r_m r))) (p_time (r_p r))) as [g0|] eqn:Ep; simpl; [|discriminate].
   destruct (sk_scan (m_vers (r_m r)) (g_id g0)) as [k|] eqn:Es; simpl; [|discriminate].
+  destruct (wkey (set_sk (m_cfg (r_m r)) k) (r_p r)) as [ps|] eqn:Ew; simpl; [|discriminate].
   destruct (route_in hash (set_sk (m_cfg (r_m r)) k) g0 (r_p r)) as [s0|] eqn:Er; [|discriminate].
   intros H. inversion H; subst. repeat split; auto.
   - rewrite Es; discriminate.
